@@ -29,7 +29,10 @@ CFG = dict(
          "blocked write) of the old connection, twice; the context cancelled at EVERY step of each of these (quick: a third of the positions "
          "of the long ones); transports that ignore their context; faults and cancellation in ONE step (also cancelling from inside the "
          "forwarding loop), repeated, judged by the predicates alone; a peer dialled on demand whose connection then fails (read / write / blocked write / dial error) and is dialled again, with the "
-         "context cancelled at every step; seeded random walks with faults; free-running stress with forged sources; AddClient and live traffic during a slow dial; both directions of one connection failing (either order, 8 error values) while the serve "
+         "context cancelled at every step; seeded random walks with faults; free-running stress with forged sources; AddClient and live traffic during a slow dial; a stuck peer with a full queue and MORE envelopes for it of every kind (body, trailer, "
+         "status+trailer, reset, ...) in one step with live traffic between two healthy peers; every observation is made BEFORE virtual time "
+         "passes, then 150 ms of virtual time go by and anything that happens then is recorded as a step without action (the model predicts "
+         "nothing; the isolation predicate sees the delay); both directions of one connection failing (either order, 8 error values) while the serve "
          "loop sits in another peer's slow disconnect callback, all inside one step (predicates only), and the same without the slow callback, "
          "repeated; 1, 2, 3, 4, 5, 8, 9, 16, 17 dials hanging at once, then a further unknown destination, live "
          "p<->q traffic and an AddClient; two roles on ONE peer in both orders (write loop parked in a blocked Write of a transport "
